@@ -55,13 +55,25 @@ class QCircuitEnhanced(QCircuit):
 
         self[name] = index
 
+    @staticmethod
+    def _is_self_inverse(gate: gates.QGate) -> bool:
+        """Return True if applying the gate twice is the identity"""
+        base = gate.gate if isinstance(gate, gates.QControlledGate) else gate
+        return isinstance(
+            base, (gates.I, gates.X, gates.Y, gates.Z, gates.H, gates.Swap)
+        )
+
     def remove_identities(self):
         """Remove identities from the circuit"""
         result: List[gates.AppliedGate] = []
         i = 0
         len_g = len(self.gates)  # type: ignore
         while i < len_g:
-            if i < (len_g - 1) and self.gates[i] == self.gates[i + 1]:  # type: ignore
+            if (
+                i < (len_g - 1)
+                and self.gates[i] == self.gates[i + 1]  # type: ignore
+                and self._is_self_inverse(self.gates[i][0])  # type: ignore
+            ):
                 if result and isinstance(result[-1][0], gates.Barrier):
                     result.pop()
                 i += 2
@@ -69,6 +81,7 @@ class QCircuitEnhanced(QCircuit):
                 i < (len_g - 2)
                 and self.gates[i] == self.gates[i + 2]  # type: ignore
                 and isinstance(self.gates[i + 1][0], gates.Barrier)  # type: ignore
+                and self._is_self_inverse(self.gates[i][0])  # type: ignore
             ):
                 if result and isinstance(result[-1][0], gates.Barrier):
                     result.pop()
